@@ -565,6 +565,13 @@ func evalModel(cs *modelCase) *verdict {
 					// same change goes through and gives the expected result,
 					// so it is a comment that the printer put where no
 					// comment may stand.
+					// Another narrow cause: "f(0 ...)" - a number literal spread
+					// into a variadic call. Printed without the positions of
+					// the file it reads "0...", which does not scan as Go.
+					if numberBeforeSpread.MatchString(cs.Host) && strings.Contains(r.ApplyErr, "found '.'") {
+						v.Sub = "number-literal-before-spread"
+						return v
+					}
 					if bare := blankComments(cs.Host); bare != cs.Host {
 						r2 := run.API("p.patch", []byte(cs.Patch), "host.go", []byte(bare))
 						if r2.OK() {
@@ -608,11 +615,12 @@ func evalModel(cs *modelCase) *verdict {
 	d := ref.FirstDifference(want, got, ref.Output)
 	mode := ref.Output
 	if d == nil {
-		// Equal up to parentheses: those count too, in one direction (the
-		// result may have more of them than expected, not fewer).
-		if d = ref.FirstDifference(want, got, ref.OutputParens); d != nil {
-			mode = ref.OutputParens
-			v.Sub = "parentheses-dropped"
+		// Equal up to parentheses: those count too. Inside a rewritten
+		// fragment the result may have more of them than expected, not
+		// fewer; outside, exactly the expected ones.
+		if d = ref.FirstDifference(want, got, ref.OutputSites); d != nil {
+			mode = ref.OutputSites
+			v.Sub = "parentheses-differ"
 		}
 	}
 	hasDots := v.MinusDots > 0
@@ -955,6 +963,8 @@ func modelSig(cs *modelCase, v *verdict) string {
 	}
 	return string(v.Kind)
 }
+
+var numberBeforeSpread = regexp.MustCompile(`[0-9]\s+\.\.\.\s*\)`)
 
 // blankComments overwrites every comment of a Go file with spaces, keeping
 // line breaks, so that all code stays at its position.
